@@ -21,3 +21,9 @@ def register(prop, TB):
         "Rust's drop elaboration is not modelled; the ledger (TGen/Mem.lean) encodes its consequence for the templates: locals are released on early return, raw-pointer writes before set_len are not",
         "the counting global allocator of harness/genrun (live bytes before/after each failing decode, input buffer included)"],
         explanation="Ownership-ledger model of the emitted decode templates with machine-checked theorems (asynchronous decoders never leak, for all documents / inputs / protocol readers; the synchronous list arm leaks on a concrete witness), tied to the real emitted code by comparing, for every truncation point of valid encodings of every generated type, WHICH cuts leave live heap bytes behind (counting allocator) with the cuts the ledger predicts. The decisive runtime fact (what Rust actually frees) is observed, not proved: level other.")
+    import detsuite
+    prop("C17", lean_props=["C17"], bins=["rt", "gentool"], streams=[], oracle_tags=["C17"], extra_steps=[detsuite.step], trusted_base=TB + [
+        "the assembly model (PilotaModel/Build/Emit.lean) is an equivalent reformulation of write_items / pkg_tree / write_stream / generate_unique_name, not a structural copy; its canonical order and split-mode names are compared with real output on every run",
+        "module names are ranked in byte order by the harness (bin/detsuite.py) before they reach the model",
+        "rayon and per-process hash seeds are represented by an arbitrary-order parameter in the theorems and exercised by repeated fresh processes with RAYON_NUM_THREADS in {1,2,3,8,16}; shared mutable caches inside write_item are covered by the byte comparison only",
+        "workspace mode is not exercised (its generation step needs a cargo workspace on disk; the repository's own workspace tests are the ones dropped offline)"])
